@@ -31,6 +31,26 @@ CHECKS = {
         technique="SMT/SAT decision (z3, cvc5 cross-check) of the CNF emitted by the real encoding code, for all assignments, per candidate count up to the bound",
         engine="z3",
         ref="DESIGN.md 3/C15"),
+    "C16": dict(
+        text="Bounded model checking (Kani/CBMC) of the id-allocation kernel of SnapshotProvider: for captured version-set id sets from an enumerated family (empty, dense, single high id, sparse, chunk-straddling) and 0-2 (quick) / 0-3 (thorough) additions, with symbolic recorded names and symbolic package per addition: every added id is fresh and distinct, every captured id - including the highest-numbered - resolves to its captured entry before and after every addition, every added id resolves to the added entry. PARTIAL: verdict equivalence with the live provider, capture (from_provider), candidate order and the JSON round trip are not decided (see C19 for Mapping serde).",
+        note="Kani 0.68/CBMC 6.11; add_package_requirement is not executed as a whole (its HashSet collect does not finish): its `let id = ...;` expression is sliced verbatim from the current source and the push is replayed by the harness; resolution uses the real version_set(); VALUES_PER_CHUNK scaled 128->4; stub ahash::RandomState::new.",
+        technique="bounded model checking of the compiled Rust (Kani -> CBMC -> SAT) with a verbatim source slice for the id expression; symbolic names/packages, enumerated id sets",
+        ref="DESIGN.md 3/C16"),
+    "C17": dict(
+        text="Bounded model checking (Kani/CBMC with its pointer, bounds, double-free and dealloc-layout checks) of the Rust halves of the containers shared with C++ (cpp/src/vector.rs, string.rs, slice.rs compiled verbatim): layout arithmetic for EVERY capacity <= 2^32 and T in {u8,u32,u64,(u32,u32)} equals the formula resolvo_vector.h uses; growth policy for all cur/req <= 2^40; operation sequences (push across growth, clone + copy-on-write, into_iter shared/unshared with early drop, from_iter exact/regrow, static empty vector, short Strings, Slices) with symbolic element values. PARTIAL: the C++ halves, resolvo::solve through the C++ provider and cpp/src/lib.rs are not decided; leak freedom is not decided.",
+        note="Kani 0.68/CBMC 6.11; operation shapes enumerated, values symbolic; known finding F4 (reference to VectorInner<T> formed over blocks smaller than the struct: static empty header, capacity-1 vectors, size-hint-0 from_iter, Strings < 7 bytes) is isolated in its own harnesses and listed in known_findings.txt; Strings of 7+ bytes run out of memory.",
+        technique="bounded model checking of the compiled Rust (Kani -> CBMC -> SAT) with CBMC memory-safety checks; fully symbolic layout/growth arithmetic",
+        ref="DESIGN.md 3/C17"),
+    "C18": dict(
+        text="Bounded model checking (Kani/CBMC) of the unsafe containers under the pool: Arena (CHUNK_SIZE scaled to 4): K allocations (K up to 5 quick / 9 thorough, crossing chunk boundaries) give dense ids in order, a reference taken after the first allocation is still valid and unchanged after all later ones, resolving an id returns the allocated value, iter yields everything in order, an id >= len panics instead of reading out of bounds; SmallVec: every push/pop/clear sequence of length 3 (quick) / 4 (thorough) plus sequences past the inline capacity agree with a reference array. PARTIAL: 'equal values share ids' (Pool::intern_* over hash maps) is not decided.",
+        note="Kani 0.68/CBMC 6.11; allocation counts, resolved ids and SmallVec operation kinds enumerated, values symbolic; reads of slots in chunks added after the chunk vector grew run out of memory and are outside the claim.",
+        technique="bounded model checking of the compiled Rust (Kani -> CBMC -> SAT) with CBMC memory-safety checks on enumerated shapes with symbolic values",
+        ref="DESIGN.md 3/C18"),
+    "C20": dict(
+        text="Bounded model checking of the favored-rotation block of SolverCache::get_or_cache_sorted_candidates_for_version_set, extracted verbatim from the current source by brace matching: for every list of up to 4 (quick) / 6 (thorough) pairwise distinct symbolic candidate ids and every favored choice (none, an id not in the list, the element at any symbolic position): the favored candidate ends up first, all others keep their relative order, otherwise the list is unchanged; never panics. Decided with CBMC's path-based symbolic execution. PARTIAL: partitioning by filter_candidates, sort order, idempotence and the availability query (async fns over FrozenMap/Event/BitVec) are not decided.",
+        note="Kani 0.68/CBMC 6.11 with --cbmc-args --paths lifo (each path decided separately; all paths explored); the block is a verbatim slice spliced into a function over (candidates.favored, sorted_candidates); if it cannot be located the check is inconclusive.",
+        technique="bounded model checking of a verbatim source slice compiled in-crate (Kani -> CBMC path-based symex -> SAT), fully symbolic ids and favored position",
+        ref="DESIGN.md 3/C20"),
     "C19": dict(
         text="Bounded model checking (Kani/CBMC) of the real Mapping<NameId,u32> against an association-list model written in the harness: every K-tuple of keys over the alphabet {0,1,3,4,5,9} (K=2 quick, 3 thorough; chunk constant scaled to 4 so the alphabet spans three chunks) x {pre-sized, growing}; operation kinds (insert/unset) and values are symbolic; insert/unset return values, get, len, is_empty after every step and iter() (ascending, each stored pair once, then None) are asserted. Serde round trip: see level_note.",
         note="Kani 0.68/CBMC 6.11; VALUES_PER_CHUNK scaled 128->4 in the scratch copy (real constant does not finish); keys enumerated (symbolic keys do not finish), values/kinds symbolic; instantiation Mapping<NameId,u32>; public API only.",
@@ -50,7 +70,7 @@ NA = {
     "C13": "Solver.state reset vs persistent SolverCache across solves: " + R1,
     "C14": "successive run_sat calls over SolverState: " + R1,
 }
-PENDING = ["C16", "C17", "C18", "C20"]
+PENDING = []
 
 
 def main():
